@@ -43,6 +43,9 @@ fn gen(t: Tier, _seed: u64, emit: &mut dyn FnMut(Case)) {
         for n in long_lengths(cid.bits()) {
             emit(Case::Boundary { cid, n, headed: n % 2 == 0, depth: 1 });
         }
+        for n in huge_lengths(cid.bits()).into_iter().filter(|n| *n <= 9000).step_by(2) {
+            emit(Case::Boundary { cid, n, headed: n % 2 == 0, depth: 1 });
+        }
         if t.thorough() {
             for m in 1..=2 {
                 emit(Case::Boundary { cid, n: 64 * m / cid.bits(), headed: m == 2, depth: 3 });
@@ -57,6 +60,8 @@ enum Op {
     Push(u8),
     ExtendInherent(u8),
     ExtendTrait(u8),
+    /// extend / Extend::extend / collect-and-append through an iterator reporting size_hint (lower, upper) from HINTS
+    ExtendHinted(u8),
     Append(u8),
     Prepend(u8),
     Insert(usize, u8),
@@ -64,6 +69,31 @@ enum Op {
     Remove(u8, usize, usize),
     Truncate(usize),
     Clear,
+}
+
+/// (lower bound reported, upper bound reported or None, actual number of items)
+const HINTS: [(usize, Option<usize>, usize); 6] = [(0, None, 3), (1, None, 3), (2, Some(5), 3), (0, Some(3), 3), (1, Some(1), 1), (0, None, 0)];
+
+/// An iterator that yields `items` but reports the given size hint (legal: lower <= actual <= upper).
+struct Hinted<A> {
+    items: std::vec::IntoIter<A>,
+    lower: usize,
+    upper: Option<usize>,
+}
+
+impl<A> Iterator for Hinted<A> {
+    type Item = A;
+    fn next(&mut self) -> Option<A> {
+        let x = self.items.next();
+        if x.is_some() {
+            self.lower = self.lower.saturating_sub(1);
+            self.upper = self.upper.map(|u| u.saturating_sub(1));
+        }
+        x
+    }
+    fn size_hint(&self) -> (usize, Option<usize>) {
+        (self.lower.min(self.items.len()), self.upper.map(|u| u.max(self.items.len())))
+    }
 }
 
 const FORMS: [&str; 11] = [
@@ -138,6 +168,15 @@ fn positions<A: Codec>(len: usize, boundary: bool) -> Vec<usize> {
     let mut v = vec![0, 1, len - 1, len];
     let mut w = 1;
     while 64 * w / bits <= len + 1 {
+        // long sequences: only the first two, the power-of-two and the last two word boundaries
+        if w > 2 && !w.is_power_of_two() && 64 * (w + 2) / bits <= len {
+            w += 1;
+            continue;
+        }
+        if len > 2000 && w > 2 && w != 64 && 64 * (w + 2) / bits <= len {
+            w += 1;
+            continue;
+        }
         let b = 64 * w / bits;
         for p in [b.saturating_sub(1), b, b + 1] {
             if p <= len {
@@ -208,6 +247,10 @@ impl<A: Sx> System for Edits<A> {
             v.push(Op::ExtendInherent(k));
             v.push(Op::ExtendTrait(k));
         }
+        // the same through iterators whose size_hint is not exact: (lower bound, actual) pairs
+        for hint in 0..HINTS.len() as u8 {
+            v.push(Op::ExtendHinted(hint));
+        }
         let pos = positions::<A>(len, self.boundary);
         for w in 0..self.windows.len() as u8 {
             v.push(Op::Append(w));
@@ -259,6 +302,22 @@ impl<A: Sx> System for Edits<A> {
                 let items: Vec<A> = (0..*k as usize).map(|i| self.xs[(i + 1) % self.xs.len()]).collect();
                 model.extend(items.iter().copied());
                 catch(|| Extend::extend(&mut next, items.iter().copied()))
+            }
+            Op::ExtendHinted(h) => {
+                opname = "extend(inexact size_hint)";
+                let (lower, upper, actual) = HINTS[*h as usize];
+                let items: Vec<A> = (0..actual).map(|i| self.xs[(i + *h as usize) % self.xs.len()]).collect();
+                model.extend(items.iter().copied());
+                let it = Hinted { items: items.into_iter(), lower, upper };
+                // alternate between the inherent method, the trait method and FromIterator + append
+                match *h % 3 {
+                    0 => catch(|| next.extend(it)),
+                    1 => catch(|| Extend::extend(&mut next, it)),
+                    _ => catch(|| {
+                        let tail: Seq<A> = it.collect();
+                        next.append(&tail)
+                    }),
+                }
             }
             Op::Append(w) => {
                 opname = "append";
